@@ -107,8 +107,6 @@ def classify(user, q, out, base_names=()):
     Odd features (system keywords as names, extends+symbols, lists mixing auto) are only generated in `odd` cases."""
     names = {k: d for k, d in user}
     if out[0] == 'exc':
-        if 'too many values to unpack' in (out[1] or ''):
-            return 'c15:range-auto-valueerror'
         if out[1].startswith('IndexError') and any(d['symbols'] == [] for d in names.values()):
             return 'c15:extends-with-symbols-indexerror'
         return None
@@ -119,10 +117,6 @@ def classify(user, q, out, base_names=()):
     if any(d['system'] and d['system'][0] and (d['symbols'] is not None or d['additive_symbols'] is not None)
            for d in names.values()):
         return 'c15:extends-with-symbols-accepted'
-    if any(d['range'] not in (None, 'auto') and 'auto' in d['range'] for d in names.values()):
-        return 'c15:range-auto-valueerror'
-    if q[2] < 0 and any(d['system'] and d['system'][1] == 'additive' and d['range'] for d in names.values()):
-        return 'c15:additive-negative-fallback-abs'
     if any(d['system'] and d['system'][0] and d['system'][1] not in names and d['system'][1] not in base_names
            for d in names.values()):
         return 'c15:extends-unknown-drops-descriptors'
@@ -359,10 +353,8 @@ def run_style_cases(run, stream, tag, cases, base_entries, with_spec, per_file):
                'first disagreements: %s' % json.dumps(mism[:2])[:3000])
     for sig, data in sigs.items():
         what = {
-            'c15:range-auto-valueerror': 'a counter style with `range: auto` makes render_value raise ValueError',
             'c15:extends-with-symbols-indexerror': 'IndexError in render_value for an extending style with an empty symbols descriptor',
             'c15:extends-with-symbols-accepted': '@counter-style with `system: extends` and symbols/additive-symbols is not rejected',
-            'c15:additive-negative-fallback-abs': 'negative value not representable by an additive style: the fallback style renders the absolute value',
             'c15:extends-unknown-drops-descriptors': 'a style extending an undefined style loses its own descriptors (plain decimal is printed)',
             'c15:style-named-like-a-system': 'a counter style whose name is a system keyword confuses the fallback cycle detection',
             'c15:extends-ancestors-in-fallback-cycle-list': 'the styles met while resolving `extends` count as already tried when following fallbacks (decimal is used instead of the fallback style)',
@@ -674,6 +666,118 @@ def scope_stream(run, rng, thorough):
                          'on ::before/::after/::marker, default decimal markers on the other list items')
 
 
+# ---------------------------------------------------------------------- tables of contents (monitor, Python)
+
+def gen_toc(rng):
+    """a document with n sections (targets t1..tn), a table of contents in front whose entries print
+    target-counter(attr(href), page), optionally back references in the text and an index at the end.
+    The front matter's length depends on the numbers printed: entries are narrow blocks in which a longer number
+    wraps onto a second line."""
+    n = rng.choice([1, 2, 3, 5, 8, 13, 21, 34, 47, 60]) if rng.random() < 0.6 else rng.randint(1, 60)
+    page_h = rng.choice([60, 80, 100, 150])
+    entry_w = rng.choice([30, 40, 40, 50, 200])          # 'aa ' + digits at 10px per glyph: 40px fits 1 digit
+    style = rng.choice(['decimal', 'decimal', 'lower-roman', 'upper-alpha'])
+    toc_at_end = rng.random() < 0.35
+    back_refs = rng.random() < 0.6
+    parts, lid = [], [0]
+    def link(k):
+        lid[0] += 1
+        return '<a class="t" id="l%d" href="#t%d">aa </a>' % (lid[0], k)
+    toc = '<div class="toc">%s</div>' % ''.join('<div class="e">%s</div>' % link(k) for k in range(1, n + 1))
+    body = []
+    for k in range(1, n + 1):
+        sec = '<h2 id="t%d">bb</h2>' % k
+        for _ in range(rng.choice([0, 1, 1, 2, 3, 6])):
+            sec += '<p style="height:%dpx"></p>' % rng.choice([10, 20, 30, 50])
+        if back_refs and k > 1 and rng.random() < 0.4:
+            sec += '<div class="e">%s</div>' % link(rng.randint(1, k - 1))         # backwards
+        if back_refs and k < n and rng.random() < 0.25:
+            sec += '<div class="e">%s</div>' % link(rng.randint(k + 1, n))         # forwards, from the text
+        if rng.random() < 0.2:
+            sec += '<p style="break-before:page;height:10px"></p>'
+        body.append(sec)
+    doc = (toc if not toc_at_end else '') + ''.join(body) + (toc if toc_at_end or rng.random() < 0.3 else '')
+    if toc_at_end and rng.random() < 0.5:
+        doc = toc + doc
+    css = ('@page{size:200px %dpx;margin:0} body{margin:0;font-family:weasyprint;font-size:10px;line-height:10px} '
+           'h2,p{margin:0;font-size:10px;font-weight:normal} h2{height:10px} .e{width:%dpx} a{text-decoration:none;color:black} '
+           'a.t::after{content:target-counter(attr(href), page, %s)}' % (page_h, entry_w, style))
+    return {'html': '<style>%s</style>%s' % (css, doc), 'n': n, 'style': style, 'entry_w': entry_w}
+
+
+def fmt_page(style, v):
+    if style == 'decimal':
+        return str(v)
+    if style == 'upper-alpha':
+        s = ''
+        while v:
+            v -= 1
+            s = chr(65 + v % 26) + s
+            v //= 26
+        return s
+    out = ''
+    for w, t in [(1000, 'm'), (900, 'cm'), (500, 'd'), (400, 'cd'), (100, 'c'), (90, 'xc'), (50, 'l'), (40, 'xl'),
+                 (10, 'x'), (9, 'ix'), (5, 'v'), (4, 'iv'), (1, 'i')]:
+        while v >= w:
+            out += t
+            v -= w
+    return out
+
+
+def judge_toc(case, o):
+    """-> (outcome, detail): 'ok' | 'not-converged' | 'wrong' | 'malformed'"""
+    bad = []
+    if len(o['links']) == 0:
+        return 'malformed', 'no link box found'
+    for lid, tid, lpage, text in o['links']:
+        pages = o['targets'].get(tid)
+        if not pages:
+            return 'malformed', 'target %s has no box' % tid
+        want = fmt_page(case['style'], min(pages))
+        if text != want:
+            bad.append((lid, tid, lpage, text, want))
+    if not bad:
+        return 'ok', None
+    if o['loops'] >= o['max_loops']:
+        return 'not-converged', bad[:3]
+    return 'wrong', bad[:3]
+
+
+def toc_stream(run, rng, thorough):
+    import time
+    cases = [gen_toc(rng) for _ in range(400 if thorough else 60)]
+    t0 = time.time()
+    outs = common.run_impl('impl_c15', 'render_toc', cases, limit=120, chunksize=1)
+    outcomes = {'ok': 0, 'not-converged': 0, 'wrong': 0, 'malformed': 0}
+    loops_hist = {}
+    nlinks = 0
+    for c, (st, o) in zip(cases, outs):
+        if st != 'ok':
+            run.fail('render of a table of contents %s' % ('timed out' if st == 'timeout' else 'raised %s at %s' % (o['type'], o['site'])),
+                     {'stream': 'toc-renders', 'html': c['html'], 'outcome': o},
+                     signature='timeout' if st == 'timeout' else 'crash:%s' % (o['site'],))
+            continue
+        res, detail = judge_toc(c, o)
+        outcomes[res] += 1
+        nlinks += len(o['links'])
+        loops_hist[o['loops']] = loops_hist.get(o['loops'], 0) + 1
+        if res == 'wrong':
+            run.fail('target-counter(page) printed %r for a target on page %s although the layout loop stopped after %d of %d passes'
+                     % (detail[0][3], detail[0][4], o['loops'], o['max_loops']),
+                     {'stream': 'toc-renders', 'html': c['html'], 'style': c['style'], 'detail': detail, 'loops': o['loops']},
+                     signature='c15:target-counter-page-wrong')
+        elif res == 'malformed':
+            run.fail('table of contents document: %s' % detail, {'stream': 'toc-renders', 'html': c['html'], 'style': c['style']},
+                     signature='c15:toc-harness')
+    run.count('toc-renders', len(cases), [c['html'] for c in cases], samples=[cases[0]['html'][:500]])
+    run.stream_info('toc-renders', outcomes=outcomes, passes_histogram=loops_hist, links=nlinks,
+                    wall_s=round(time.time() - t0, 1), judged_in='Python (monitor)',
+                    rule='1..60 sections, table of contents in front and/or at the end, forward and backward references '
+                         'in the text, entries 30-200px wide so that a longer page number wraps and lengthens the front '
+                         'matter, page heights 60-150px, decimal/lower-roman/upper-alpha; a wrong number after the loop '
+                         'used all its passes is the outcome not-converged, not a violation')
+
+
 def check(run):
     rng = random.Random(run.seed * 7919 + 15)
     thorough = run.tier == 'thorough'
@@ -705,6 +809,7 @@ def check(run):
                          'descriptor combinations), parsed by weasyprint.CSS into the CounterStyle dictionary; '
                          '~30 values per style incl. range bounds +-1; symbols() / string styles')
     scope_stream(run, rng, thorough)
+    toc_stream(run, rng, thorough)
     cases = [gen_raw_case(rng) for _ in range(800 if thorough else 100)]
     n = run_style_cases(run, 'raw-dictionaries', 'c15raw', cases, [], False, per_file=len(cases) // 16 + 1)
     run.count('raw-dictionaries', n, [json.dumps(c['raw']) for c in cases], samples=[cases[0]['raw'][:1]])
@@ -714,6 +819,28 @@ def check(run):
 
 def replay(data):
     d = data.get('data', {})
+    if d.get('stream') == 'toc-renders':
+        (st, o), = common.run_impl('impl_c15', 'render_toc', [{'html': d['html']}], limit=300)
+        if st != 'ok':
+            print('replay:', st, o)
+            return 1
+        res, detail = judge_toc({'style': d.get('style', 'decimal')}, o)
+        print('replay: outcome', res, detail, 'passes', o['loops'], 'of', o['max_loops'])
+        return 1 if res in ('wrong', 'malformed') else 0
+    if d.get('stream') == 'scope-renders':
+        (st, o), = common.run_impl('impl_c15', 'render_texts', [{'html': d['html']}], limit=300)
+        if st != 'ok':
+            print('replay:', st, o)
+            return 1
+        lit, problems = scope_printed(d['doc'], o)
+        print('replay: printed', o[:12], problems)
+        if problems:
+            return 1
+        m = common.eval_cases('c15replay', PRE_SCOPE, SCOPE_T,
+                              ['([%s], %s, %s)' % ('; '.join(slit(x) for x in OBS_NAMES), nodelit(d['doc']), lit)],
+                              'scope_judge')
+        print('judge mask (1 = model differs, 2 = CSS reference differs):', m[0])
+        return 1 if m[0] else 0
     if d.get('stream') in ('ua-styles', 'random-counter-style', 'raw-dictionaries'):
         case = {'css': d.get('css'), 'raw': d.get('raw'), 'use_ua': d.get('use_ua', True), 'queries': [d['query']]}
         (st, o), = common.run_impl('impl_c15', 'render_queries', [case])
